@@ -10,6 +10,7 @@
   implementation against the AST reference.
 -/
 import YalafiVerif.Model.Expander
+import YalafiVerif.Proofs.GenRepl
 namespace Yalafi
 
 theorem C09_genRepl_nil (arguments : List (List Tok)) (start : Nat) :
@@ -71,5 +72,13 @@ theorem C09_pyIndex (args : List (List Tok)) (k : Nat) (hk : 1 ≤ k) : pyIndex 
   unfold pyIndex
   have : (k == 0) = false := by simp; omega
   simp [this]
+
+/-- a user definition expands by substitution: up to the position markers (Action tokens), the
+    expansion of a body is the body with every `#k` replaced by the tokens of the k-th argument
+    (kinds and texts; where the tokens map to is C04's subject), for all argument lists and bodies -/
+theorem C09_genRepl_subst (args : List (List Tok)) (repl : List Tok) (start : Nat) (out : List Tok)
+    (h : generateReplacements args repl start = some out) :
+    (noAction out).map (fun t => (t.kind, t.txt)) = (noAction (substRef args repl)).map (fun t => (t.kind, t.txt)) :=
+  genRepl_subst args repl start out h
 
 end Yalafi
